@@ -25,7 +25,8 @@ def check_trace(ctx, scn, tag, mark, what, extra_ok=(), readonly=False, key=None
         step = scn.step_of_action(rec)
         if readonly:
             ctx.expect(False, tag + ":mutates:" + rec["kind"], "%s performed a mutating filesystem action (%s)" % (what, rec["kind"]),
-                       native={"kind": "unreplayable", "why": "trace-level expectation"})
+                       native={"kind": "step_leaves_tree_unchanged", "step": step} if (step is not None and rec.get("done")) else
+                       {"kind": "unreplayable", "why": "trace-level expectation"})
             return
         for p in (rec.get("path"), rec.get("path2") if rec["kind"] in ("rename", "link", "ficlone", "reflink") else None):
             if not isinstance(p, SBytes):
@@ -96,6 +97,12 @@ def confined(ctx, key, op, api):
     if r.kind != "ok":
         return
     sri = r.value
+    if op.endswith("_after_remove"):
+        # the key was removed (a tombstone is all its bucket ends with): lookups stay read-only
+        if scn.remove(key).kind != "ok":
+            return
+        op = op[:-len("_after_remove")]
+        tag += ":after-remove"
     mark = len(scn.env.trace)
     ro = False
     extra = ()
@@ -214,7 +221,7 @@ def tasks(tier, flavours):
     out = []
     keys = HOSTILE_KEYS if tier != "quick" else ["../../x", "/abs", "k\té\n\"\\", "nul\0key"]
     ops = ["write", "write_hash", "streamed", "read", "read_hash", "metadata", "exists", "list", "stream", "copy", "hard_link", "reflink",
-           "copy_over", "hard_link_over", "reflink_over", "write_tmp_is_file", "write_hash_tmp_is_file", "streamed_tmp_is_file", "remove", "remove_hash", "remove_fully", "remove_then_fully", "clear"]
+           "copy_over", "hard_link_over", "reflink_over", "write_tmp_is_file", "write_hash_tmp_is_file", "streamed_tmp_is_file", "metadata_after_remove", "read_after_remove", "list_after_remove", "remove", "remove_hash", "remove_fully", "remove_then_fully", "clear"]
     for fl in flavours:
         api = "sync" if fl == "sync" else "async"
         for i, op in enumerate(ops):
